@@ -2,6 +2,7 @@ import Demeter.Drv.Json
 import Demeter.Trigger
 import Demeter.Actuator
 import Demeter.Actuator.Causal
+import Demeter.Actuator.Hooks
 namespace Demeter.Drv
 open Demeter Demeter.Core Lean
 
@@ -183,6 +184,139 @@ def runH : JHandler := fun j => do
     ("bars", .arr ((barIndex cfg).map iJ).toArray),
     ("err", errJ r.err)]
 
+/-! #### hooks that raise and change `strategy.triggers` (Demeter/Actuator/Hooks.lean) -/
+
+def errOfName : String → Except String PyErr
+  | "HookError" => pure .hookError
+  | "HookRuntimeError" => pure .hookRuntimeError
+  | "DemeterError" => pure .demeterError
+  | "ValueError" => pure .valueError
+  | "KeyError" => pure .keyError
+  | "IndexError" => pure .indexError
+  | "TypeError" => pure .typeError
+  | n => throw s!"unknown exception class {n}"
+
+/-- a trigger a hook installs: `{"id": n, "kw": …, "k": …}` (the constructor must accept it) -/
+def trigOf (v : Json) : Except String Trig := do
+  let sp ← parseSpec v
+  match sp.make with
+  | .ok k => pure ⟨← (do natOf (← v.getObjVal? "id")), jStrD v "kw" "", k⟩
+  | .error e => throw s!"installed trigger does not construct: {e.name}"
+
+def stmtOf (v : Json) : Except String HStmt :=
+  match v with
+  | .arr #[.str "tadd", t] => do pure (.tadd (← trigOf t))
+  | .arr #[.str "tdel", i] => do pure (.tdel (← natOf i))
+  | .arr #[.str "boom", .str n] => do pure (.boom (← errOfName n))
+  | _ => do pure (.op (← opOf v))
+
+def stmtsOf (v : Json) : Except String (List HStmt) :=
+  match v with
+  | .arr a => a.toList.mapM stmtOf
+  | _ => throw "statements: expected array"
+
+def mutOf (v : Json) : Except String TMut :=
+  match v with
+  | .arr #[.str "add", t] => do pure (.add (← trigOf t))
+  | .arr #[.str "del", i] => do pure (.del (← natOf i))
+  | _ => throw s!"bad mutation {v.compress}"
+
+def gtbl1 (j : Json) (k : String) : Except String (Nat → List HStmt) := do
+  match jOpt j k with
+  | none => pure fun _ => []
+  | some (.arr a) =>
+    let l ← a.toList.mapM fun v => match v with
+      | .arr #[r, ops] => do pure (← natOf r, ← stmtsOf ops)
+      | _ => throw s!"{k}: expected [row, statements]"
+    pure fun r => (l.lookup r).getD []
+  | _ => throw s!"{k}: expected array"
+
+def gtbl2 (j : Json) (k : String) : Except String (Nat → Nat → List HStmt) := do
+  match jOpt j k with
+  | none => pure fun _ _ => []
+  | some (.arr a) =>
+    let l ← a.toList.mapM fun v => match v with
+      | .arr #[r, i, ops] => do pure ((← natOf r, ← natOf i), ← stmtsOf ops)
+      | _ => throw s!"{k}: expected [row, id, statements]"
+    pure fun r i => (l.lookup (r, i)).getD []
+  | _ => throw s!"{k}: expected array"
+
+def gtblN (j : Json) (k : String) : Except String (Nat → String → List HStmt) := do
+  match jOpt j k with
+  | none => pure fun _ _ => []
+  | some (.arr a) =>
+    let l ← a.toList.mapM fun v => match v with
+      | .arr #[r, .str tag, ops] => do pure ((← natOf r, tag), ← stmtsOf ops)
+      | _ => throw s!"{k}: expected [row, tag, statements]"
+    pure fun r t => (l.lookup (r, t)).getD []
+  | _ => throw s!"{k}: expected array"
+
+def parseGScript (scj : Json) : Except String GScript := do
+  let init ← match jOpt scj "init" with | some v => stmtsOf v | none => pure []
+  let before ← gtbl1 scj "before"
+  let fire ← gtbl2 scj "fire"
+  let openCb ← gtbl2 scj "open"
+  let on ← gtbl1 scj "on"
+  let after ← gtbl1 scj "after"
+  let upd ← tblU scj "upd"
+  let notify ← gtblN scj "notify"
+  let fuel ← match jOpt scj "fuel" with | some v => natOf v | none => pure 0
+  let tfuel ← match jOpt scj "tfuel" with | some v => natOf v | none => pure 0
+  pure { init := init,
+         bar := fun row => { before := before row, fire := fire row, openCb := openCb row, on := on row, after := after row,
+                             upd := upd row, notify := notify row },
+         fuel := fuel, tfuel := tfuel }
+
+def resultJ (made : List Json) (cfg : Cfg) (r : RunResult) : Json :=
+  Json.mkObj [
+    ("make", .arr made.toArray),
+    ("trace", .arr (r.trace.map evJ).toArray),
+    ("rows", .arr (r.rows.map fun (t, p) => Json.arr #[iJ t, oJ p]).toArray),
+    ("actions", .arr (r.actions.map fun a => Json.arr #[.str a.tag, iJ a.stamp, nJ a.m]).toArray),
+    ("left", .arr (r.trigsLeft.map fun t => nJ t.id).toArray),
+    ("bars", .arr ((barIndex cfg).map iJ).toArray),
+    ("err", errJ r.err)]
+
+/-- `Actuator.run` for any scripted strategy (`runG`); with `"then": <script>` the same Actuator and strategy object are run a second time
+    with that script (`trigsAfterRunG` → `actuatorRunG`) and the second result is answered under `"second"` -/
+def runGH : JHandler := fun j => do
+  let cfg ← parseCfg j
+  let specsJ := match jOpt j "specs" with | some (.arr a) => a.toList | _ => []
+  let specs ← specsJ.mapM fun s => do pure (jStrD s "kw" "", ← parseSpec s)
+  let (made, ok) := buildTrigs specs
+  let trigs := install (ok.map fun (kw, _, k) => (kw, k))
+  let g ← parseGScript ((jOpt j "script").getD (Json.mkObj []))
+  let r := actuatorRunG cfg trigs g
+  let first := resultJ made cfg r
+  match jOpt j "then" with
+  | none => pure first
+  | some scj2 =>
+    let g2 ← parseGScript scj2
+    let r2 := actuatorRunG cfg (trigsAfterRunG cfg trigs g) g2
+    pure (first.setObjVal! "second" (resultJ made cfg r2))
+
+/-- the trigger loop alone with actions that change the list (`trigRunD`), and the same bars through the cursor reading (`cursorLoop`) -/
+def trigRunDynH : JHandler := fun j => do
+  let bars ← jIntArr j "bars"
+  let specsJ ← jArr j "specs"
+  let specs ← specsJ.toList.mapM fun s => do pure (jStrD s "kw" "", ← parseSpec s)
+  let (made, ok) := buildTrigs specs
+  let trigs := install (ok.map fun (kw, _, k) => (kw, k))
+  let extra ← match jOpt j "extra" with | some v => natOf v | none => pure 0
+  let l ← match jOpt j "muts" with
+    | some (.arr a) => a.toList.mapM fun v => match v with
+      | .arr #[r, i, .arr ms] => do pure ((← natOf r, ← natOf i), ← ms.toList.mapM mutOf)
+      | _ => throw "muts: expected [row, id, [mutation, …]]"
+    | _ => pure []
+  let mu : Nat → Nat → List TMut := fun r i => (l.lookup (r, i)).getD []
+  let (fires, live, left, err) := trigRunD mu extra 0 bars trigs
+  pure <| Json.mkObj [
+    ("make", .arr made.toArray),
+    ("fires", .arr (fires.map fun f => Json.arr #[intJ f.ts, natJ f.id, .str f.kw]).toArray),
+    ("live", .arr (live.map fun ids => Json.arr (ids.map natJ).toArray).toArray),
+    ("left", .arr (left.map fun t => natJ t.id).toArray),
+    ("err", errJ err)]
+
 /-! #### the views of C02 on a history of bar times (rows are identified by their position / timestamp) -/
 
 def viewsH : JHandler := fun j => do
@@ -206,6 +340,8 @@ def coreHandlers : List (String × Handler) := []
 def coreJHandlers : List (String × JHandler) := [
   ("trig_run", CoreDrv.trigRunH),
   ("run", CoreDrv.runH),
+  ("run_g", CoreDrv.runGH),
+  ("trig_run_dyn", CoreDrv.trigRunDynH),
   ("views", CoreDrv.viewsH)
 ]
 
